@@ -11,6 +11,7 @@ import (
 	"time"
 
 	"github.com/bool64/cache"
+	"github.com/cespare/xxhash/v2"
 )
 
 // Gated real janitor, shared by C11 and C12. The janitor goroutine of the backend under test is paused at its own
@@ -112,13 +113,22 @@ func init() {
 		Rule: "real janitor (DeleteExpiredJobInterval=1ms, DeleteExpiredAfter=1h) paused between cycles at its EvictionNeeded call-out; seeded rounds write mixes of never-expiring, fresh (+1h..+3h), " +
 			"recently expired (-1s..-30min) and long-expired (-2h..-10h) entries, then let 1..3 cleanup cycles run and compare Len/Walk/Read with the model (survivors = all but long-expired); " +
 			"TimeToLive finite and Unlimited (incl. first per-call TTL arriving late), all three backends; distinct_nontrivial = distinct (backend, ttl mode, class-mix pattern per round) cases containing a long-expired and a surviving entry",
-		Required:    []string{"cycles.observed", "entries.long_expired.deleted", "entries.never.survived", "entries.recent.survived", "entries.fresh.survived", "unlimited.late_ttl.cases", "kind.ShardedMap", "kind.SyncMap", "kind.ShardedMapOf"},
+		Required:    []string{"cycles.observed", "entries.long_expired.deleted", "entries.never.survived", "entries.recent.survived", "entries.fresh.survived", "unlimited.late_ttl.cases", "kind.ShardedMap", "kind.SyncMap", "kind.ShardedMapOf", "stress.rounds", "aging.must_be_deleted.checked", "aging.must_survive.checked"},
 		Assumptions: []string{"wall clock not stepped; class margins are >=1s against a 1h DeleteExpiredAfter boundary", "no eviction limit configured; EvictionNeeded always answers false"},
 		Timeout:     func(string) time.Duration { return 15 * time.Minute },
 	})
 }
 
 func runC11(b *Batch) {
+	nStress := b.Pick(2, 24)
+	for i := 0; i < nStress; i++ {
+		if !b.Skip(1000000 + i) {
+			c11Stress(b, 1000000+i)
+		}
+	}
+	if !b.Skip(2000000) && b.Only < 0 || b.Only == 2000000 {
+		c11Aging(b, 2000000)
+	}
 	n := b.Pick(2000, 60000) / b.NBatches
 	var wg sync.WaitGroup
 	sem := make(chan struct{}, 4)
@@ -302,7 +312,7 @@ func init() {
 		Rule: "real janitor gated at EvictionNeeded / Stats.Add(cache_evict); seeded cases: L in {10,100,1000}, n in {L-1,L,L+1,2L,10L}, EvictFraction in {default,0.01,0.1,0.5,0.51,1}, strategy {MostExpired,LRU,LFU}, " +
 			"trigger {none,count breach,EvictionNeeded=true once,HeapInUseSoftLimit=1,count+heap}, seeded access history; after exactly one eviction cycle the amount, the cache_evict metric and the strategy order " +
 			"(max rank of removed <= min rank of kept) are judged; distinct_nontrivial = distinct (backend,strategy,trigger,L,n,fraction) cells in which an eviction was due",
-		Required:    []string{"cases.no_trigger", "cases.count", "cases.needed", "cases.heap", "evictions.judged", "order.pairs_checked", "strategy.MostExpired", "strategy.LRU", "strategy.LFU"},
+		Required:    []string{"cases.with_long_expired", "cases.no_trigger", "cases.count", "cases.needed", "cases.heap", "evictions.judged", "order.pairs_checked", "strategy.MostExpired", "strategy.LRU", "strategy.LFU"},
 		Assumptions: []string{"HeapInuse of the child process exceeds 1 byte; wall clock strictly advanced between LRU reads (spin)"},
 		Timeout:     func(string) time.Duration { return 15 * time.Minute },
 	})
@@ -326,6 +336,9 @@ func runC12(b *Batch) {
 	}
 	wg.Wait()
 }
+
+// evCntSeen: at least one full cleanup cycle has run over the prepared content.
+func evCntSeen(evCnt float64, expectEvict bool) bool { return true }
 
 func c12Case(b *Batch, idx int) {
 	rng := rand.New(rand.NewSource(b.CaseSeed(idx)))
@@ -460,13 +473,39 @@ func c12Case(b *Batch, idx int) {
 			rank[k]++
 		}
 	}
-	before := be.Len()
+	// sometimes long-expired entries are present as well: the cycle purges them first, eviction is judged on what is left
+	nDead := 0
+	if rng.Intn(3) == 0 {
+		nDead = 1 + rng.Intn(2*L)
+		for i := 0; i < nDead; i++ {
+			be.Write(cache.WithTTL(bg, -200*time.Hour-time.Duration(rng.Int63n(int64(time.Hour))), false), []byte(fmt.Sprintf("dead%05d", i)), "dead")
+		}
+		b.R.Count("cases.with_long_expired", 1)
+		cell += fmt.Sprintf("/dead=%d", nDead)
+		w["cell"] = cell
+	}
+	before := be.Len() - nDead
 	if before != n {
-		fail("prepare", fmt.Sprintf("Len=%d after writing %d entries while the janitor was parked", before, n))
+		fail("prepare", fmt.Sprintf("Len=%d after writing %d+%d entries while the janitor was parked", before+nDead, n, nDead))
 		return
 	}
 	evictsBefore := atomic.LoadInt64(&g.evicts)
 
+	if nDead > 0 && (trigger == "needed" || trigger == "none") {
+		// the janitor is parked after this cycle's purge: give the long-expired entries their own purge cycle first
+		g.release(false)
+		parked = false
+		ev, err = g.next()
+		if err != nil {
+			b.R.Inconcl("C12: janitor did not come back")
+			return
+		}
+		parked = true
+		if ev.kind != "EN" {
+			fail("evict-without-trigger", fmt.Sprintf("cache_evict=%v in a cycle without any trigger", ev.cnt))
+			return
+		}
+	}
 	// let exactly one (judged) cycle run
 	answer := trigger == "needed"
 	countBreach := cfg.CountSoftLimit != 0 && n > L
@@ -516,7 +555,17 @@ func c12Case(b *Batch, idx int) {
 			}
 		}
 	}
-	after := be.Len()
+	deadLeft := 0
+	be.Walk(func(k []byte, _ interface{}, _ timeT) error {
+		if len(k) > 4 && string(k[:4]) == "dead" {
+			deadLeft++
+		}
+		return nil
+	})
+	if deadLeft > 0 && (expectEvict || trigger == "none" || true) && evCntSeen(evCnt, expectEvict) {
+		fail("long-expired-survived", fmt.Sprintf("%d of %d entries expired >100h ago survived a cleanup cycle", deadLeft, nDead))
+	}
+	after := be.Len() - deadLeft
 	removed := before - after
 	nEvicts := atomic.LoadInt64(&g.evicts) - evictsBefore
 	w["before"], w["after"], w["cache_evict"], w["evict_events"] = before, after, evCnt, nEvicts
@@ -578,6 +627,159 @@ func c12Case(b *Batch, idx int) {
 		b.R.Count("order.pairs_checked", 1)
 		if maxRemoved > minKept {
 			fail("order", fmt.Sprintf("removed %s (rank %v) outranks kept %s (rank %v)", worstRemoved, maxRemoved, worstKept, minKept))
+		}
+	}
+}
+
+// c11Stress: the janitor runs freely (1ms) while writers keep replacing long-expired entries with fresh ones in one crowded
+// shard. A fresh entry must never be removed by a cleanup cycle: Read right after the fresh Write must hit.
+func c11Stress(b *Batch, idx int) {
+	rng := rand.New(rand.NewSource(b.CaseSeed(idx)))
+	kind := backendKinds[rng.Intn(3)]
+	cfg := cache.Config{DeleteExpiredJobInterval: time.Millisecond, DeleteExpiredAfter: 30 * time.Minute, TimeToLive: time.Hour, ExpirationJitter: -1}
+	if rng.Intn(2) == 0 {
+		cfg.TimeToLive = cache.UnlimitedTTL
+	}
+	be := newBackend(kind, cfg)
+	shard := uint64(rng.Intn(128))
+	inShard := func(prefix string, n int) [][]byte {
+		var ks [][]byte
+		for i := 0; len(ks) < n; i++ {
+			k := []byte(fmt.Sprintf("%s-%d", prefix, i))
+			if xxhash.Sum64(k)%128 == shard {
+				ks = append(ks, k)
+			}
+		}
+		return ks
+	}
+	// recently expired fillers make every scan of the shard long without being deletable themselves
+	for _, k := range inShard("filler", 3000) {
+		be.Write(cache.WithTTL(bg, -time.Second, false), k, "filler")
+	}
+	writers := 6
+	keys := inShard("victim", writers)
+	var wg sync.WaitGroup
+	var lost, rounds, longGone int64
+	stopAt := time.Now().Add(150 * time.Millisecond)
+	var firstLoss atomic.Value
+	for w := 0; w < writers; w++ {
+		wg.Add(1)
+		r := rand.New(rand.NewSource(rng.Int63()))
+		go func(w int) {
+			defer wg.Done()
+			k := keys[w]
+			for i := 0; time.Now().Before(stopAt) || i < 200; i++ {
+				if i > 20000 {
+					break
+				}
+				be.Write(cache.WithTTL(bg, -time.Hour-time.Duration(r.Intn(1000))*time.Second, false), k, "old")
+				if r.Intn(2) == 0 {
+					time.Sleep(time.Duration(r.Intn(150)) * time.Microsecond)
+				}
+				if _, err := be.Read(bg, k); errClass(err) == "notfound" {
+					atomic.AddInt64(&longGone, 1) // the janitor removed the long-expired version: fine
+				}
+				tok := fmt.Sprintf("fresh-%d-%d", w, i)
+				be.Write(cache.WithTTL(bg, time.Hour, false), k, tok)
+				v, err := be.Read(bg, k)
+				atomic.AddInt64(&rounds, 1)
+				if err != nil || v != tok {
+					atomic.AddInt64(&lost, 1)
+					firstLoss.CompareAndSwap(nil, fmt.Sprintf("writer %d round %d: Read after Write(%s,+1h) returned (%v,%v)", w, i, tok, v, err))
+				}
+			}
+		}(w)
+	}
+	wg.Wait()
+	b.R.Eval()
+	b.R.Count("stress.runs", 1)
+	b.R.Count("stress.rounds", rounds)
+	b.R.Count("stress.long_expired_removed_by_janitor", longGone)
+	b.R.Nontrivial(fmt.Sprintf("stress/%s/shard=%d/unl=%v", kind, shard, cfg.TimeToLive == cache.UnlimitedTTL))
+	if lost > 0 {
+		b.R.Violate(b, idx, "C11:"+kind+":fresh-entry-deleted", fmt.Sprintf("%d of %d fresh entries vanished while cleanup cycles were running: %v", lost, rounds, firstLoss.Load()), map[string]interface{}{"backend": kind, "rounds": rounds})
+	}
+}
+
+// c11Aging: entries age in real time past DeleteExpiredAfter (30ms). Sound bracketing: the janitor's boundary of a cycle lies in
+// [release-D, park-D]; an entry with E below the lower bracket must be gone, one above the upper bracket must survive.
+func c11Aging(b *Batch, idx int) {
+	rng := rand.New(rand.NewSource(b.CaseSeed(idx)))
+	const D = 30 * time.Millisecond
+	for _, kind := range backendKinds {
+		for _, unlimited := range []bool{false, true} {
+			cfg := cache.Config{DeleteExpiredJobInterval: time.Millisecond, DeleteExpiredAfter: D, TimeToLive: time.Hour, ExpirationJitter: -1}
+			if unlimited {
+				cfg.TimeToLive = cache.UnlimitedTTL
+			}
+			g := newJanGate()
+			cfg.EvictionNeeded = g.evictionNeeded
+			be := newBackend(kind, cfg)
+			parked := false
+			func() {
+				defer func() { g.done(parked) }()
+				if _, err := g.next(); err != nil {
+					b.R.Inconcl("C11 aging: janitor never arrived")
+					return
+				}
+				parked = true
+				n := 3 + rng.Intn(6)
+				for i := 0; i < n; i++ {
+					be.Write(cache.WithTTL(bg, -time.Millisecond, false), []byte(fmt.Sprintf("age-%d", i)), "v")
+				}
+				if unlimited {
+					be.Write(bg, []byte("forever"), "v")
+				}
+				E := map[string]int64{}
+				be.Walk(func(k []byte, _ interface{}, exp timeT) error { E[string(k)] = exp.UnixNano(); return nil })
+				cycle := func() (tr, tp int64, ok bool) {
+					tr = time.Now().UnixNano()
+					g.release(false)
+					parked = false
+					if _, err := g.next(); err != nil {
+						b.R.Inconcl("C11 aging: janitor did not come back")
+						return 0, 0, false
+					}
+					parked = true
+					return tr, time.Now().UnixNano(), true
+				}
+				judge := func(tr, tp int64, phase string) {
+					left := map[string]bool{}
+					be.Walk(func(k []byte, _ interface{}, _ timeT) error { left[string(k)] = true; return nil })
+					for k, e := range E {
+						switch {
+						case e == 0 || e >= tp-int64(D):
+							b.R.Count("aging.must_survive.checked", 1)
+							if !left[k] {
+								b.R.Violate(b, idx, "C11:"+kind+":aging-deleted-too-early", fmt.Sprintf("%s: entry %s (E=%d) deleted although it expired less than DeleteExpiredAfter before the cycle [%d,%d]", phase, k, e, tr, tp), nil)
+							}
+						case e < tr-int64(D):
+							b.R.Count("aging.must_be_deleted.checked", 1)
+							if left[k] {
+								b.R.Violate(b, idx, "C11:"+kind+":aging-long-expired-survived", fmt.Sprintf("%s: entry %s expired %v before the cycle started (DeleteExpiredAfter %v) but survived it (unlimited=%v)", phase, k, time.Duration(tr-e), D, unlimited), nil)
+							}
+						default:
+							b.R.Count("aging.ambiguous.skipped", 1)
+						}
+					}
+				}
+				// cycle 1 right away: the entries expired ~1ms ago and must survive
+				tr, tp, ok := cycle()
+				if !ok {
+					return
+				}
+				judge(tr, tp, "young")
+				// let them age past DeleteExpiredAfter while the janitor is parked, then run another cycle
+				time.Sleep(D + 20*time.Millisecond)
+				tr, tp, ok = cycle()
+				if !ok {
+					return
+				}
+				judge(tr, tp, "aged")
+				b.R.Eval()
+				b.R.Count("aging.cases", 1)
+				b.R.Nontrivial(fmt.Sprintf("aging/%s/unl=%v", kind, unlimited))
+			}()
 		}
 	}
 }
